@@ -35,7 +35,12 @@ loader produced or that was stored for the key; a value about to be stored came 
 def GoodG (seen : List Val) (g : G) : Prop :=
   (∀ v, g.pc = .done (.ok v) → isValue v ∧ v ∈ seen) ∧ (∀ v, g.pc = .storing v → v ∈ seen)
 
-def KeyOk (srv : Srv) : Prop := ∀ x, srv.key = some (.value x) → Val.value x ∈ srv.seen
+/-- the key is accounted for: a value in it was stored or loaded by somebody; a placeholder in it
+is either such a user value carrying the prefix, or the id of a client whose liveness marker has
+been set (`started`) — keepalive publishes a client's id only after the marker SET succeeded -/
+def KeyOk (srv : Srv) : Prop :=
+  (∀ x, srv.key = some (.value x) → Val.value x ∈ srv.seen) ∧
+  (∀ i, srv.key = some (.ph i) → Val.ph i ∈ srv.seen ∨ i ∈ srv.started)
 
 def Inv (s : Sys) : Prop := KeyOk s.srv ∧ ∀ g ∈ s.gs, GoodG s.srv.seen g
 
@@ -76,6 +81,16 @@ grows, and the Get's new state is accounted -/
 @[simp] private theorem keepalive_seen (t : Srv) (d : Nat) : (keepalive t d).seen = t.seen := by unfold keepalive; split <;> rfl
 @[simp] private theorem keepalive_loads (t : Srv) (d : Nat) : (keepalive t d).loads = t.loads := by unfold keepalive; split <;> rfl
 
+@[simp] private theorem keepalive_started (t : Srv) (d i : Nat) :
+    i ∈ (keepalive t d).started ↔ i = d ∨ i ∈ t.started := by
+  unfold keepalive; split
+  · rename_i h; constructor
+    · exact Or.inr
+    · rintro (e | e)
+      · exact e ▸ h
+      · exact e
+  · simp
+
 theorem gstep_good (s : Srv) (g : G) (load : Option Val) (hk : KeyOk s) (hg : GoodG s.seen g) :
     KeyOk (gstep s g load).1 ∧ (∀ v, v ∈ s.seen → v ∈ (gstep s g load).1.seen) ∧
       GoodG (gstep s g load).1.seen (gstep s g load).2 := by
@@ -88,8 +103,11 @@ theorem gstep_good (s : Srv) (g : G) (load : Option Val) (hk : KeyOk s) (hg : Go
   all_goals (try simp only [acquire, keepalive_key])
   all_goals (repeat' split)
   all_goals simp_all [isValue, setkey, delkey]
-  all_goals (try (intro x; split <;> simp_all))
-  all_goals (intro h; subst h; assumption)
+  all_goals (try (first
+    | (intro h; subst h; assumption)
+    | (rcases hk with h | h <;> simp_all; done)
+    | (intro x; split <;> simp_all; done)
+    | (refine ⟨?_, ?_⟩ <;> intro x <;> split <;> simp_all <;> (first | done | (intro h; subst h; first | assumption | exact Or.inl ‹_›)))))
 
 theorem inv_next (s : Sys) (e : Ev) (h : Inv s) : Inv (next s e) := by
   obtain ⟨hk, hgs⟩ := h
@@ -125,14 +143,19 @@ theorem inv_next (s : Sys) (e : Ev) (h : Inv s) : Inv (next s e) := by
       rcases List.mem_or_eq_of_mem_set hx with h | h
       · exact hgs x h
       · exact h ▸ goodG_pc (g := g) rfl (hgs g (List.mem_of_getElem? hgi))
-  | del => exact ⟨(fun x hx => by cases hx), all_ite hgs (all_wakeKey hgs)⟩
-  | expire => exact ⟨(fun x hx => by cases hx), all_ite hgs (all_wakeKey hgs)⟩
+  | del => exact ⟨⟨(fun x hx => by cases hx), (fun i hi => by cases hi)⟩, all_ite hgs (all_wakeKey hgs)⟩
+  | expire => exact ⟨⟨(fun x hx => by cases hx), (fun i hi => by cases hi)⟩, all_ite hgs (all_wakeKey hgs)⟩
   | put v =>
     refine ⟨?_, all_wakeKey (fun g hg => goodG_mono (fun _ h => List.mem_cons_of_mem _ h) (hgs g hg))⟩
-    intro x hx
-    simp only [next] at hx
-    cases hx
-    exact List.mem_cons_self ..
+    constructor
+    · intro x hx
+      simp only [next] at hx
+      cases hx
+      exact List.mem_cons_self ..
+    · intro i hi
+      simp only [next] at hi
+      cases hi
+      exact Or.inl (List.mem_cons_self ..)
   | death id => exact ⟨hk, all_ite (all_wakeId hgs) hgs⟩
   | refresh id => exact ⟨hk, all_wakeId hgs⟩
 
@@ -141,7 +164,7 @@ theorem inv_run (s : Sys) (es : List Ev) (h : Inv s) : Inv (run s es) := by
   | nil => exact h
   | cons e r ih => exact ih _ (inv_next s e h)
 
-private theorem inv_init : Inv {} := ⟨(fun x hx => by cases hx), (fun g hg => by cases hg)⟩
+private theorem inv_init : Inv {} := ⟨⟨(fun x hx => by cases hx), (fun i hi => by cases hi)⟩, (fun g hg => by cases hg)⟩
 
 /-- for every interleaving, a value returned by Get is never the lock placeholder -/
 theorem never_returns_placeholder (es : List Ev) (g : G) (v : Val)
@@ -153,6 +176,17 @@ key by somebody (`seen` records exactly the loader outputs and the foreign write
 theorem value_is_loader_or_stored (es : List Ev) (g : G) (v : Val)
     (hg : g ∈ (run {} es).gs) (hd : g.pc = .done (.ok v)) : v ∈ (run {} es).srv.seen :=
   (((inv_run {} es inv_init).2 g hg).1 v hd).2
+
+/-- for every interleaving: a placeholder in the key that is not a user value carrying the
+prefix belongs to a client whose liveness marker has been set before — keepalive publishes the
+client id only after its marker SET succeeded, and a Get locks the key only with a published id.
+(Another client that reads the placeholder therefore finds the marker unless it expired.) -/
+theorem placeholder_implies_marker_was_set (es : List Ev) (i : Nat)
+    (hk : (run {} es).srv.key = some (.ph i)) (hu : Val.ph i ∉ (run {} es).srv.seen) :
+    i ∈ (run {} es).srv.started := by
+  rcases (inv_run {} es inv_init).1.2 i hk with h | h
+  · exact absurd h hu
+  · exact h
 
 /-! ### 3. one loader while the holder's placeholder is in place -/
 
